@@ -139,8 +139,8 @@ contract(BLOCK, 'BlockParser.break_separator', 'C18',
 		],
 		decreases='len(text) - index',
 		hints_end=[
-			'lemma_stack_restart(text, TOKS12, old(index), index)',
-			'implies(text[old(index)] in OPEN, lemma_no_cuts(text, delimiter, TOKS12, old(index), index))',
+			'lemma_stack_restart(text, TOKS12, prev(index), index)',
+			'implies(text[prev(index)] in OPEN, lemma_no_cuts(text, delimiter, TOKS12, prev(index), index))',
 		])},
 )
 
